@@ -70,6 +70,8 @@ type Config struct {
 	Compensate                                                              bool // supply the proposer cache after a reload (finding F1)
 	Suffix                                                                  bool // append the fair suffix (liveness)
 	SuffixByzSilent                                                         bool
+	// BadBlockFocus: Byzantine proposers open their rounds with a defective block (policy.go); set for C02 only
+	BadBlockFocus bool `json:"bad_block_focus,omitempty"`
 
 	// which oracle families are evaluated (all by default)
 	Oracles map[string]bool `json:",omitempty"`
